@@ -303,6 +303,8 @@ type Variant struct {
 	GMW   bool
 	// Verbose: Params.Verbose and Params.Diagnostics (reports, never results)
 	Verbose bool
+	// Symbols: a pre-loaded intern() table (ids of sym0, sym1, ...), as LoadSymbolIDs gives
+	Symbols []int `json:",omitempty"`
 }
 
 // Job is one compilation of the program under comparison.
@@ -475,6 +477,14 @@ func RunJob(j Job, keepSSA bool) (a Artefacts) {
 			// parameters" any more. A Params of its own is left as NewParams made it.
 			p2.SymbolIDs = map[string]int{}
 		}
+		if len(j.Variant.Symbols) > 0 {
+			// a symbol table loaded from a file (garbled -sids): part of the parameters, the same
+			// for every job; it may be sparse (somebody removed symbols by hand)
+			p2.SymbolIDs = map[string]int{}
+			for i, id := range j.Variant.Symbols {
+				p2.SymbolIDs[fmt.Sprintf("sym%d", i)] = id
+			}
+		}
 		p2.SSAOut = nopCloser{&ssa}
 		if j.SlowSSA {
 			p2.SSAOut = slowWriter{&ssa}
@@ -618,6 +628,21 @@ func (w *world) Run(t *rt.Tape, trace bool) *core.Result {
 		p, sizes = stream.Program{Name: "generated", Src: src}, probe
 	}
 	v := Variant{Prune: t.Choose(rt.SGen, 2) == 1, GMW: t.Choose(rt.SGen, 4) == 0, Verbose: t.Choose(rt.SGen, 6) == 0}
+	if strings.Contains(p.Src, "intern(") && t.Choose(rt.SGen, 2) == 0 {
+		// a pre-loaded symbol table: dense, 1-based, or with holes and duplicates of a hand-edited file
+		n := 1 + t.Choose(rt.SGen, 6)
+		for i := 0; i < n; i++ {
+			switch t.Choose(rt.SGen, 3) {
+			case 0:
+				v.Symbols = append(v.Symbols, i)
+			case 1:
+				v.Symbols = append(v.Symbols, i+1+t.Choose(rt.SGen, 3))
+			default:
+				v.Symbols = append(v.Symbols, t.Choose(rt.SGen, 2*n+2))
+			}
+		}
+		res.Reach["params.pre-loaded-symbol-table"]++
+	}
 	nj := 2 + t.Choose(rt.SGen, 2)
 	jobs := make([]Job, nj)
 	smp := sample{Program: p.Name, Variant: v}
